@@ -37,6 +37,69 @@ fn find_fn(path: &str, ty: &str, name: &str) -> R<syn::ImplItemFn> {
     Err("missing".into())
 }
 
+fn find_trait_fn(path: &str, ty: &str, tr: &str, name: &str) -> R<syn::ImplItemFn> {
+    let src = std::fs::read_to_string(path).map_err(|e| format!("{path}: {e}"))?;
+    let file = syn::parse_file(&src).map_err(|e| format!("{path}: {e}"))?;
+    for it in &file.items {
+        if let Item::Impl(im) = it {
+            let t = &im.self_ty;
+            let is_tr = im.trait_.as_ref().map(|x| x.1.segments.last().map(|s| s.ident == tr).unwrap_or(false)).unwrap_or(false);
+            if is_tr && quote::quote!(#t).to_string() == ty {
+                for ii in &im.items {
+                    if let ImplItem::Fn(f) = ii {
+                        if f.sig.ident == name {
+                            return Ok(f.clone());
+                        }
+                    }
+                }
+            }
+        }
+    }
+    Err("missing".into())
+}
+
+/// `Key` derives `Default` (all-zero words) - checked on the struct definition
+fn key_derives_default(src_dir: &str) -> bool {
+    let Ok(src) = std::fs::read_to_string(format!("{src_dir}/key.rs")) else { return false };
+    let Ok(file) = syn::parse_file(&src) else { return false };
+    for it in &file.items {
+        if let Item::Struct(st) = it {
+            if st.ident == "Key" {
+                let derives: String = st.attrs.iter().filter(|a| a.path().is_ident("derive")).map(|a| { let m = &a.meta; quote::quote!(#m).to_string() }).collect();
+                let one_field = matches!(&st.fields, syn::Fields::Unnamed(u) if u.unnamed.len() == 1 && { let t = &u.unnamed[0].ty; quote::quote!(#t).to_string().replace(' ', "") == "[u64;4]" });
+                return derives.contains("Default") && one_field;
+            }
+        }
+    }
+    false
+}
+
+/// `impl Default`: the body must be `<Self|Type>::<ctor>(Key::default())`, possibly inside `unsafe { }`
+fn default_ctor(f: &syn::ImplItemFn, ty: &str) -> R<String> {
+    let mut e: &Expr = match f.block.stmts.as_slice() {
+        [Stmt::Expr(e, None)] => e,
+        _ => return Err("body is not a single expression".into()),
+    };
+    if let Expr::Unsafe(u) = e {
+        e = match u.block.stmts.as_slice() {
+            [Stmt::Expr(e, None)] => e,
+            _ => return Err("unsafe block is not a single expression".into()),
+        };
+    }
+    let Expr::Call(c) = e else { return Err("not a constructor call".into()) };
+    let Expr::Path(p) = &*c.func else { return Err("constructor path".into()) };
+    let segs: Vec<String> = p.path.segments.iter().map(|s| s.ident.to_string()).collect();
+    if segs.len() != 2 || !(segs[0] == "Self" || segs[0] == ty) {
+        return Err("constructor of another type".into());
+    }
+    let [arg] = c.args.iter().collect::<Vec<_>>()[..] else { return Err("constructor arity".into()) };
+    let a = quote::quote!(#arg).to_string().replace(' ', "");
+    if a != "Key::default()" {
+        return Err(format!("key argument is {a}"));
+    }
+    Ok(segs[1].clone())
+}
+
 fn packet_size(src_dir: &str) -> Option<u64> {
     let src = std::fs::read_to_string(format!("{src_dir}/internal.rs")).ok()?;
     let file = syn::parse_file(&src).ok()?;
@@ -646,6 +709,50 @@ fn main() {
                 Err(e) => status.push((format!("{ty}::{fname}"), format!("skipped: {e}"))),
             }
         }
+    }
+    // Default impls: `X::default()` is the constructor applied to the derived (all-zero) `Key::default()`
+    let key_zero = key_derives_default(src);
+    for (file, ty, tag, model) in [
+        ("portable.rs", "PortableHash", "portable", "HH.P"),
+        ("x86/sse.rs", "SseHash", "sse", "HH.Sse"),
+        ("x86/avx.rs", "AvxHash", "avx", "HH.Avx"),
+        ("aarch64.rs", "NeonHash", "neon", "HH.NeonB"),
+        ("wasm.rs", "WasmHash", "wasm", "HH.WasmB"),
+    ] {
+        let r: R<(String, String)> = (|| {
+            if !key_zero {
+                return Err("Key does not derive Default on a single [u64; 4] field".into());
+            }
+            let f = find_trait_fn(&format!("{src}/{file}"), ty, "Default", "default")?;
+            let ctor = default_ctor(&f, ty)?;
+            if ctor != "new" && ctor != "force_new" {
+                return Err(format!("constructor {ctor}"));
+            }
+            let d = format!("/-- `impl Default for {ty}`: `{ty}::{ctor}(Key::default())`, `Key` deriving `Default` -/\ndef default_{tag} : {model}.State := {model}.new V4.zero\n");
+            let t = format!("theorem default_{tag}_eq : default_{tag} = {model}.default := rfl\n");
+            Ok((d, t))
+        })();
+        match r {
+            Ok((d, t)) => {
+                out.push_str(&d);
+                out.push('\n');
+                thms.push_str(&t);
+                thms.push('\n');
+                status.push((format!("{ty}::default"), "translated".into()));
+            }
+            Err(e) => status.push((format!("{ty}::default"), format!("skipped: {e}"))),
+        }
+    }
+    // the dispatcher's Default forwards to its own ladder
+    {
+        let r: R<()> = (|| {
+            let f = find_trait_fn(&format!("{src}/builder.rs"), "HighwayHasher", "Default", "default")?;
+            if default_ctor(&f, "HighwayHasher")? != "new" {
+                return Err("not HighwayHasher::new".into());
+            }
+            Ok(())
+        })();
+        status.push(("HighwayHasher::default".into(), match r { Ok(()) => "translated".into(), Err(e) => format!("skipped: {e}") }));
     }
     // HashPacket
     out.push_str("namespace Packet\n\n");
